@@ -433,21 +433,20 @@ Proof.
   rewrite IH by exact H2. apply step_sys_untouched. exact H1.
 Qed.
 
-(* a hold set by the administrator (for a time other than the current instant) is reported at the levels it covers
-   exactly until the requested time, whatever gating snaps, refreshes and the clock do in between *)
+(* a hold set by the administrator is reported at the levels it covers exactly until the requested time, whatever
+   gating snaps, refreshes and the clock do in between *)
 Theorem system_hold : forall st level t snaps s ops,
-  In s snaps -> t <> Some (st_now st) -> forallb (sys_untouched s) ops = true ->
+  In s snaps -> forallb (sys_untouched s) ops = true ->
   let st2 := run (step st (SysHold level t snaps)) ops in
   forall lvl, effective st2 lvl s system = (lvl <=? level)%N && (st_now st2 <=? sys_until (st_now st) t).
 Proof.
-  intros st level t snaps s ops Hin Ht Hops st2 lvl.
+  intros st level t snaps s ops Hin Hops st2 lvl.
   destruct (sys_hold_loop (st_now st) (st_lastref st) level snaps
               (mkAcc (st_gating st) (sys_duration (st_now st) t) 0 false) s Hin) as [He [f Hf]].
   cbn [a_err a_dur] in He, Hf.
   assert (Hu : st_now st + norm_dur (sys_duration (st_now st) t) = sys_until (st_now st) t).
   { unfold sys_until, sys_duration, norm_dur. destruct t as [u|].
-    - unfold time_sub. assert (u - st_now st <> 0) by (intros H0; apply Ht; f_equal; lia).
-      pose proof (clamp_nonzero _ H). destruct (clamp64 (u - st_now st) =? 0) eqn:E; [lia | reflexivity].
+    - unfold time_sub. destruct (clamp64 (u - st_now st) =? 0) eqn:E; [reflexivity|]. rewrite E. reflexivity.
     - cbn [Z.eqb]. rewrite max_duration_val. reflexivity. }
   rewrite Hu in Hf.
   assert (H1 : st_gating (step st (SysHold level t snaps)) s system = Some (mkHold f (sys_until (st_now st) t) level)).
@@ -459,9 +458,29 @@ Proof.
     cbn [negb andb]; destruct (_ <? _) eqn:E3; destruct (_ <=? _) eqn:E4; try reflexivity; lia.
 Qed.
 
-(* within the range of a Go duration the end is the requested time itself *)
-Lemma sys_until_exact : forall now u, min_int64 <= u - now <= max_int64 -> sys_until now (Some u) = u.
-Proof. intros now u H. unfold sys_until, clamp64. lia. Qed.
+(* within the range of a Go duration the end is the requested time itself, unless it is the current instant *)
+Lemma sys_until_exact : forall now u, min_int64 <= u - now <= max_int64 -> u <> now -> sys_until now (Some u) = u.
+Proof.
+  intros now u H Hne. unfold sys_until, clamp64 in *.
+  destruct (Z.max min_int64 (Z.min max_int64 (u - now)) =? 0) eqn:E; lia.
+Qed.
+Lemma sys_until_now : forall now, sys_until now (Some now) = now - 1.
+Proof. intros now. unfold sys_until. replace (now - now) with 0 by lia. reflexivity. Qed.
+
+(* the statement of the property: at every instant after the request, the hold is reported iff the requested time has
+   not passed; also at the instant of the request itself unless the requested time is that very instant *)
+Theorem system_hold_until_requested_time : forall st level u snaps s ops,
+  In s snaps -> min_int64 <= u - st_now st <= max_int64 -> forallb (sys_untouched s) ops = true ->
+  let st2 := run (step st (SysHold level (Some u) snaps)) ops in
+  u <> st_now st \/ st_now st < st_now st2 ->
+  forall lvl, effective st2 lvl s system = (lvl <=? level)%N && (st_now st2 <=? u).
+Proof.
+  intros st level u snaps s ops Hin Hr Hops st2 Hc lvl.
+  pose proof (system_hold st level (Some u) snaps s ops Hin Hops lvl) as H. cbv zeta in H. fold st2 in H. rewrite H.
+  destruct (Z.eq_dec u (st_now st)) as [->|Hne].
+  - destruct Hc as [Hc|Hc]; [contradiction|]. rewrite sys_until_now. f_equal. lia.
+  - rewrite sys_until_exact by assumption. reflexivity.
+Qed.
 
 (* ------------------------------------------------------------------ witnesses *)
 Definition h_ns : Z := 3600000000000.
@@ -475,11 +494,12 @@ Lemma explicit_duration_witness :
   effective st 0 2 1 = true /\ ep 2%N 1%N = Some 0 /\ forty_eight_h < st_now st.
 Proof. vm_compute. repeat split; reflexivity. Qed.
 
-(* a system hold until exactly the current instant is a hold forever *)
-Lemma system_hold_until_now_witness :
+(* regression witness of a repaired defect: a system hold until exactly the current instant used to last forever; it
+   now is expired at once *)
+Lemma system_hold_until_now_expires :
   let st0 := init_state (fun _ => - h_ns) 0 in
-  let st := run st0 [SysHold 0 (Some (st_now st0)) [1%N]; Tick 1] in
-  effective st 0 1 system = true /\ st_now st0 < st_now st.
+  effective (run st0 [SysHold 0 (Some (st_now st0)) [1%N]]) 0 1 system = false /\
+  effective (run st0 [SysHold 0 (Some (st_now st0)) [1%N]; Tick 1]) 0 1 system = false.
 Proof. vm_compute. split; reflexivity. Qed.
 
 (* non-vacuity: a default-duration history in which another snap's hold is reported, then refused at the bound *)
